@@ -180,6 +180,12 @@ func (w *World) noteSeen(m *Machine, data []byte) {
 	note := data
 	if _, _, rest, ok := ref.SplitRecordMsg(string(data)); ok {
 		note = []byte(rest)
+	} else if i := strings.Index(string(data), "\n\n"); i >= 0 {
+		// not a well-formed record message (a negative record number, say): the client may still take the
+		// signed head that follows the first blank line before it rejects the record
+		if text, ok := ValidSignedHead(data[i+2:]); ok {
+			m.SeenHeads[text] = true
+		}
 	}
 	if text, ok := ValidSignedHead(note); ok {
 		m.SeenHeads[text] = true
